@@ -399,6 +399,9 @@ PIPE_ROWS = {
     "M": "[CH3:1][CH2:2][OH:3]>>[CH3:1][CH:2]=[O:3]",                           # mapped
     "B": "CC(=O)[O-].[Na+]>>CC(=O)O",                                           # unmapped, bracket atoms
     "E": "[CH3:1][C:2](=[O:3])[O:4][CH2:5][CH3:6]>>[CH3:1][C:2](=[O:3])[OH:4]",  # mapped, MCS path
+    # a result row of an earlier run made with remove_aam = False, fed in again: mapped, with a stale mapped input_reaction
+    "S": {"reaction": "[CH3:1][CH2:2][CH2:3][CH3:4]>>[CH3:1][C:2]#[N:5]",
+          "input_reaction": "[CH3:1][CH2:2][CH2:3][CH3:4]>>[CH3:1][C:2]#[N:5]", "solved": False},
 }
 
 
@@ -422,7 +425,7 @@ def pipeline_item(job):
             if _re.search(r"\[[^\]]*:\d+\]", v):
                 bad.append({"key": ["pipeline", "map-survives", col],
                             "what": "row {} of batch {} (batch_size={}): column {} still carries atom maps: {}".format(i, list(seq), bs, col, v[:120])})
-        want = [oracle.mols(s) for s in rx.split(">>")]
+        want = [oracle.mols(s) for s in (rx["reaction"] if isinstance(rx, dict) else rx).split(">>")]
         got = [oracle.mols(s) for s in (row.get("input_reaction") or ">>").split(">>")]
         if got != want:
             bad.append({"key": ["pipeline", "input-changed"],
